@@ -226,6 +226,9 @@ func TestC10HandshakeCancellation(t *testing.T) {
 			if stallAfterHello {
 				e.srv.Steps[0].Then = func(cn *simnet.Conn) { cn.StallWrites() }
 			}
+			if rapid.IntRange(0, 3).Draw(rt, "close-returns-error") == 0 {
+				e.conn.CloseErr = errors.New("close: broken pipe")
+			}
 			cancelStep := rapid.IntRange(0, 12).Draw(rt, "cancel-at-step")
 			viaDial := rapid.Bool().Draw(rt, "via-dial")
 			// The context may also end while the dialer is still at work: the library then holds a
